@@ -5,10 +5,10 @@ package c18
 
 import (
 	"context"
-	"runtime"
 	"encoding/json"
 	"errors"
 	"fmt"
+	"runtime"
 	"sort"
 	"strings"
 	"sync"
@@ -21,6 +21,7 @@ import (
 
 	"verif/e2"
 	"verif/e2s1"
+	"verif/ref/e4"
 	"verif/sim"
 	"verif/vfw"
 )
@@ -33,9 +34,15 @@ type scenario struct {
 	Retry   int    `json:"retry"`    // RTY of both ends
 	W       bool   `json:"w"`        // primaries carry the W-bit; the receiving handler answers with ReplyDataMessage
 	EActive bool   `json:"e_active"` // the equipment dials, the host listens (or the reverse)
+	// Embed: the (1-block) payload carries, for either direction, ENQ followed by a complete valid
+	// header-only block S2F21: bytes that are read on an idle line would be taken for a message
+	Embed bool `json:"embed,omitempty"`
 }
 
 func (s scenario) String() string {
+	if s.Embed {
+		return fmt.Sprintf("%s/%dblk/rty%d/W=%v/eActive=%v/embedded-block", s.Dirs, s.Blocks, s.Retry, s.W, s.EActive)
+	}
 	return fmt.Sprintf("%s/%dblk/rty%d/W=%v/eActive=%v", s.Dirs, s.Blocks, s.Retry, s.W, s.EActive)
 }
 
@@ -59,12 +66,29 @@ var payloadLen = map[int]int{1: 20, 2: 300, 3: 600}
 
 func token(side string, k int) string { return fmt.Sprintf("%s%d", side, k) }
 
-func payload(tok string, blocks int) []byte {
-	p := make([]byte, payloadLen[blocks])
+func plen(sc scenario) int {
+	if sc.Embed {
+		return 40
+	}
+	return payloadLen[sc.Blocks]
+}
+
+func payload(tok string, sc scenario) []byte {
+	p := make([]byte, plen(sc))
 	for i := range p {
 		p[i] = byte(0x30 + (i*7+int(tok[1]))%64) // never 0x05 (ENQ)
 	}
 	copy(p, tok)
+	if sc.Embed {
+		// token, two filler bytes, then ENQ + a valid header-only block for each direction
+		at := 4
+		for _, r := range []bool{false, true} {
+			blk := e4.Block{Header: e4.Header{Device: device, R: r, Stream: 2, Function: 21, System: [4]byte{0xEE, 0xEE, 0xEE, 0x01}}, Number: 1, E: true}.Marshal()
+			p[at] = 0x05
+			copy(p[at+1:], blk)
+			at += 1 + len(blk)
+		}
+	}
 	return p
 }
 
@@ -142,10 +166,10 @@ func run(t *testing.T, sc scenario, plan []fault) (res result, fail *failure, ha
 		sem := map[string]chan struct{}{"E": make(chan struct{}, 1), "H": make(chan struct{}, 1)}
 		replyQ := map[string]chan *hsms.DataMessage{"E": make(chan *hsms.DataMessage, 16), "H": make(chan *hsms.DataMessage, 16)}
 		tokenOf := func(body []byte) string {
-			if len(body) < payloadLen[sc.Blocks] {
+			if len(body) < plen(sc) {
 				return "??"
 			}
-			return string(body[len(body)-payloadLen[sc.Blocks]:][:2])
+			return string(body[len(body)-plen(sc):][:2])
 		}
 		handler := func(at string) func(*hsms.DataMessage, hsms.SECS2Endpoint) {
 			return func(m *hsms.DataMessage, ep hsms.SECS2Endpoint) {
@@ -154,7 +178,7 @@ func run(t *testing.T, sc scenario, plan []fault) (res result, fail *failure, ha
 				seq++
 				log = append(log, deliv{at: at, seq: seq, msg: m, body: body})
 				mu.Unlock()
-				if m.WaitBit() && m.Stream() == 1 && len(body) >= payloadLen[sc.Blocks] {
+				if m.WaitBit() && m.Stream() == 1 && len(body) >= plen(sc) {
 					if serialized {
 						select {
 						case replyQ[at] <- m:
@@ -274,7 +298,7 @@ func run(t *testing.T, sc scenario, plan []fault) (res result, fail *failure, ha
 			}
 			calls = append(calls, w.Go(func() {
 				for k, r := range mine {
-					item := secs2.NewBinaryItem(payload(r.Tok, sc.Blocks))
+					item := secs2.NewBinaryItem(payload(r.Tok, sc))
 					var rep *hsms.DataMessage
 					var err error
 					if serialized {
@@ -431,7 +455,7 @@ func run(t *testing.T, sc scenario, plan []fault) (res result, fail *failure, ha
 			matched := false
 			for k := 0; k < perSide; k++ {
 				tok := token(from, k)
-				want := secs2.NewBinaryItem(payload(tok, sc.Blocks)).ToBytes()
+				want := secs2.NewBinaryItem(payload(tok, sc)).ToBytes()
 				if d.msg.Stream() == 1 && d.msg.Function() == 1 && d.msg.WaitBit() == sc.W && string(d.body) == string(want) {
 					count[tok]++
 					if count[tok] == 1 {
@@ -582,6 +606,9 @@ func instantiate(tp tmpl, u *unit, pairMode bool) *fault {
 		if f.Arg < 0 {
 			f.Arg = u.Len + f.Arg
 		}
+		if f.Kind == fShortLen && u.Len < 17 {
+			return nil // nothing would be left behind the shortened block
+		}
 		if (f.Kind == fFlip || f.Kind == fTrunc || f.Kind == fDelayT1) && (f.Arg < 1 || f.Arg >= u.Len) {
 			return nil
 		}
@@ -624,7 +651,7 @@ var ballast = make([]byte, 256<<20)
 func TestCheck(t *testing.T) {
 	vfw.Main(t, "C18", func(c *vfw.Ctx) {
 		c.Level("model_checking")
-		c.Rule("E2 fault enumeration: two real secs1 connections (equipment = master, host = slave; T1/T2 100/300 ms and 110/340 ms, T4 10 s, T3 4 s) in one bubble joined by a middlebox that parses the E4 line protocol into line units (one handshake character, or one block transmission) and applies a fault plan addressed by (direction, unit index). Scenarios {equipment sends, host sends, both at the same virtual instant with their first ENQs made to cross in the middlebox} x message size {1,2,3 blocks} x RTY {0,1,3} x {no W, W with the receiving handler answering by ReplyDataMessage}; every sending side sends 2 token-carrying messages one after the other (after a failed send it waits for Selected). Fault alphabet per unit among the first 12 units of each direction (= the first 24 line units): handshake character {drop, replace by ENQ/EOT/ACK/NAK/0x00, delay T2+d, sticky drop (this and every later unit of the direction until the link is re-established), sticky replace-by-NAK}; block {drop, invert header byte 4 / body byte / either checksum byte, truncate at 1 / 5 / n-1, pause T1+d after 6 bytes, delay T2+d, sticky drop}; the length byte is never inverted (a shorter length can pass the checksum by coincidence). quick: the fault-free run and ALL single-fault plans of all 54 scenarios, plus ALL two-fault plans of the contention scenario 1 block / RTY 1 / no W; thorough: additionally all two-fault plans of the scenarios with {1,2 blocks} x {RTY 0,1} (every direction, W and no W), 1 block / RTY 3 / no W and 3 blocks / RTY 1 / no W, every byte position for the inversion in the 1-block scenarios, and the reverse TCP roles. In two-fault plans 'replace by ACK' and 'delay T2+d' are excluded (a forged ACK, or — once a late unit has left the answers one character behind — a stale ACK, can vouch for a block the receiver never took: E4 acknowledgements carry no sequence information, so no checksum or handshake detects it). Oracle: every send call that returned nil was delivered to the other side's data handler exactly once, byte-identical (W: and its reply came back byte-identical); nothing is delivered twice or altered; deliveries per direction are in send order; no block is requested more than RTY+1 times (ENQs since the last ACK, successful yield or visibly exhausted block, attributed to blocks by their headers); a side closes its socket in the middle of a send only after RTY+1 requests, and both sides are Selected again within 6 s; the master never grants the line while its own request is outstanding and never counts a yield; fault-free contention: the host yields and the equipment's message is delivered first; every send call returns within 25 s (else deadlock). non-trivial = at least one fault applied")
+		c.Rule("E2 fault enumeration: two real secs1 connections (equipment = master, host = slave; T1/T2 100/300 ms and 110/340 ms, T4 10 s, T3 4 s) in one bubble joined by a middlebox that parses the E4 line protocol into line units (one handshake character, or one block transmission) and applies a fault plan addressed by (direction, unit index). Scenarios {equipment sends, host sends, both at the same virtual instant with their first ENQs made to cross in the middlebox} x message size {1,2,3 blocks} x RTY {0,1,3} x {no W, W with the receiving handler answering by ReplyDataMessage}; every sending side sends 2 token-carrying messages one after the other (after a failed send it waits for Selected). Fault alphabet per unit among the first 12 units of each direction (= the first 24 line units): handshake character {drop, replace by ENQ/EOT/ACK/NAK/0x00, delay T2+d, sticky drop (this and every later unit of the direction until the link is re-established), sticky replace-by-NAK}; block {drop, invert header byte 4 / body byte / either checksum byte, truncate at 1 / 5 / n-1, pause T1+d after 6 bytes, delay T2+d, sticky drop}; the length byte is never inverted blindly (a shorter length can pass the checksum by coincidence); instead 4 extra scenarios {E sends, H sends} x {no W, W} whose 1-block payload embeds ENQ + a valid header-only block for either direction get the fault 'length byte replaced by 10, the 13 bytes that now look like the block at once, the tail half a T1 later' on every block unit (only where the shortened block fails its checksum): a receiver that reads the tail as line traffic delivers a message nobody sent. quick: the fault-free run and ALL single-fault plans of all 54 scenarios, plus ALL two-fault plans of the contention scenario 1 block / RTY 1 / no W; thorough: additionally all two-fault plans of the scenarios with {1,2 blocks} x {RTY 0,1} (every direction, W and no W), 1 block / RTY 3 / no W and 3 blocks / RTY 1 / no W, every byte position for the inversion in the 1-block scenarios, and the reverse TCP roles. In two-fault plans 'replace by ACK' and 'delay T2+d' are excluded (a forged ACK, or — once a late unit has left the answers one character behind — a stale ACK, can vouch for a block the receiver never took: E4 acknowledgements carry no sequence information, so no checksum or handshake detects it). Oracle: every send call that returned nil was delivered to the other side's data handler exactly once, byte-identical (W: and its reply came back byte-identical); nothing is delivered twice or altered; deliveries per direction are in send order; no block is requested more than RTY+1 times (ENQs since the last ACK, successful yield or visibly exhausted block, attributed to blocks by their headers); a side closes its socket in the middle of a send only after RTY+1 requests, and both sides are Selected again within 6 s; the master never grants the line while its own request is outstanding and never counts a yield; fault-free contention: the host yields and the equipment's message is delivered first; every send call returns within 25 s (else deadlock). non-trivial = at least one fault applied")
 		c.Assume("testing/synctest virtual time and durable-blocking detection", "sim in-memory network", "the middlebox's protocol-derived unit boundaries are cross-checked against the libraries' write boundaries in every execution", "message bytes never contain ENQ (0x05), so the tail of a paused block cannot look like a request to send")
 		if c.Replay != nil {
 			var rc replayCase
@@ -741,6 +768,27 @@ func TestCheck(t *testing.T) {
 		}
 		if !pairs(scenario{Dirs: "both", Blocks: 1, Retry: 1, W: false, EActive: true}) {
 			return
+		}
+		// the length byte of a block corrupted to a smaller legal value, the tail of the block a little
+		// late: on every block unit of a sender whose payload embeds ENQ + a valid block (a receiver
+		// that reads the tail as line traffic delivers a message nobody sent)
+		for _, dirs := range []string{"EH", "HE"} {
+			for _, w := range []bool{false, true} {
+				sc := scenario{Dirs: dirs, Blocks: 1, Retry: 1, W: w, EActive: true, Embed: true}
+				if c.Next() {
+					check(c, t, sc, nil)
+				}
+				for dir := 0; dir < 2; dir++ {
+					for idx := 0; idx < unitsPerDir; idx++ {
+						if !c.Next() {
+							continue
+						}
+						if f := instantiate(tmpl{Kind: fShortLen, block: true}, unitAt(baseline(sc), dir, idx), false); f != nil {
+							check(c, t, sc, []fault{*f})
+						}
+					}
+				}
+			}
 		}
 		if c.Thorough() {
 			for _, sc := range scs {
